@@ -1,6 +1,6 @@
 """C02 — static resources: the right file, its exact bytes, its media type."""
 from .servebase import *
-import refmime
+import refmime, vlib
 
 SPECIAL = ("/", "/style.css", "/script.js", "/favicon.svg", "/file-upload/initiate", "/form-get-method", "/form-url-encoded-enctype-post-method",
            "/form-multipart-enctype-post-method")
@@ -41,12 +41,34 @@ class TreeView:
         return e
 
 
+# extensions the code registers beyond the frozen reference table (read from the regenerated chain by P.extra): additions, typed by the
+# code's own entry - the reference has no opinion on them.  Empty at the pinned commit.
+BEYOND = {}
+
+
+def chain_beyond_reference():
+    """{extension: type} for every suffix of coq/generated/GenMime.v whose extension the reference table does not list"""
+    import re, os
+    out = {}
+    try:
+        txt = open(os.path.join(vlib.V, "coq", "generated", "GenMime.v")).read()
+    except OSError:
+        return out
+    dec = lambda l: bytes(int(x) for x in l.split(";") if x.strip()).decode("utf-8", "replace")
+    for m in re.finditer(r"RSuffix \[([0-9;]*)\] \[([0-9;]*)\]", txt):
+        out[dec(m.group(1))] = dec(m.group(2))
+    for m in re.finditer(r"RExt \[((?:\[[0-9;]*\];? ?)*)\] \[([0-9;]*)\]", txt):
+        for sm in re.finditer(r"\[([0-9;]*)\]", m.group(1)):
+            out[dec(sm.group(1))] = dec(m.group(2))
+    return {k[1:]: v for k, v in out.items() if k.startswith(".") and k[1:] not in refmime.TABLE}
+
+
 def mime_of(name):
     base = name.rsplit("/", 1)[-1]
     if "." not in base[1:]:
         return refmime.DEFAULT
     ext = base.rsplit(".", 1)[1]
-    return refmime.TABLE.get(ext, refmime.DEFAULT)
+    return refmime.TABLE.get(ext, BEYOND.get(ext, refmime.DEFAULT))
 
 
 class P(ServeProp):
@@ -142,6 +164,13 @@ class P(ServeProp):
         if he is not None:
             return ("404",), "candidate-not-regular"
         return ("404",), tag
+
+    def extra(self, tier, seed, work, notes):
+        BEYOND.clear(); BEYOND.update(chain_beyond_reference())
+        if BEYOND:
+            notes.append("media types: the code registers %d extension(s) beyond the frozen reference table (%s); they are additions - typed by the code's own "
+                         "entry, every reference entry is still required as it stands" % (len(BEYOND), ", ".join(".%s -> %s" % kv for kv in sorted(BEYOND.items()))))
+        return {"failures": [], "coverage": {"extensions_beyond_reference": sorted(BEYOND)}}
 
     def oracle(self, line, out):
         raw = self.raw(out)
